@@ -1153,16 +1153,19 @@ int vorbis_encode_ctl(vorbis_info *vi,int number,void *arg){
              ai->bitrate_limit_min_kbps>ai->bitrate_limit_max_kbps)
             return OV_EINVAL;
 
-          if(ai->bitrate_average_damping <= 0.)
+          /* written so that a NaN is refused as well: it compares
+             false with everything, and the bitrate manager turns the
+             bias into its integer fill level */
+          if(!(ai->bitrate_average_damping > 0.))
             return OV_EINVAL;
 
           if(ai->bitrate_limit_reservoir_bits < 0)
             return OV_EINVAL;
 
-          if(ai->bitrate_limit_reservoir_bias < 0.)
+          if(!(ai->bitrate_limit_reservoir_bias >= 0.))
             return OV_EINVAL;
 
-          if(ai->bitrate_limit_reservoir_bias > 1.)
+          if(!(ai->bitrate_limit_reservoir_bias <= 1.))
             return OV_EINVAL;
 
           hi->managed=ai->management_active;
